@@ -5,7 +5,8 @@ EXTENDS Naturals, Sequences
 
 CONSTANTS Alphabet, MaxLen
 
-VARIABLES g, c, cx        \* g: token string, c: its classification in the HTML dialect, cx: in the XML dialect
+VARIABLES g, c, cx,       \* g: token string, c: its classification in the HTML dialect, cx: in the XML dialect
+          d, dx           \* H!DelX(g, FALSE / TRUE): the tokens that make up the removed elements
 
 H == INSTANCE HtmlSkip WITH Deviations <- {}, toks <- <<>>, cdata <- "", h <- [skip |-> 0, tag |-> "", body |-> FALSE, dead |-> FALSE], out <- {}
 
@@ -16,13 +17,16 @@ AlphaQ4 == H!AlphaQ4
 AlphaQ5 == H!AlphaQ5
 AlphaQ6 == H!AlphaQ6
 AlphaQ7 == H!AlphaQ7
+AlphaQ8 == H!AlphaQ8
+AlphaT3 == H!AlphaT3
 AlphaT  == H!AlphaT
 AlphaT2 == H!AlphaT2
 
-Init == g = <<>> /\ c = <<>> /\ cx = <<>>
+Init == g = <<>> /\ c = <<>> /\ cx = <<>> /\ d = {} /\ dx = {}
 Next == \E t \in Alphabet : /\ Len(g) < MaxLen
                             /\ g' = Append(g, t)
                             /\ c' = H!ClassX(g', FALSE)
                             /\ cx' = H!ClassX(g', TRUE)
-Spec == Init /\ [][Next]_<<g, c, cx>>
+                            /\ d' = H!DelX(g', FALSE) /\ dx' = H!DelX(g', TRUE)
+Spec == Init /\ [][Next]_<<g, c, cx, d, dx>>
 =============================================================================
